@@ -38,3 +38,20 @@ def run_extract_lex(ctx, modules=("Vore.Model.Lexer",), rebuild=True):
             bok, bout = C.build_lean(list(modules) + ["vdriver"], ctx.log)
             res["build_ok"], res["build_out"] = bok, bout
     return res
+
+
+def check_unicode_tables(ctx):
+    """Vore/UnicodeTables.lean holds the three `unicode` predicates the lexer classifies runes with, as the Go toolchain
+    that builds /repo defines them.  Regenerate them (harness/cmd/unitables) and compare with the committed file: a
+    difference means the toolchain's Unicode version changed and the tables must be regenerated (a broken tie)."""
+    exe = os.path.join(C.BIN, "unitables")
+    rc, o = C.sh(["go", "build"] + C.go_mod_args() + ["-o", exe, "./cmd/unitables"], cwd=os.path.join(C.VERIF, "harness"),
+                 env=C.GOENV, timeout=600)
+    ctx.log.append({"step": "go build unitables", "rc": rc, "out": o[-500:]})
+    if rc != 0:
+        return False, o
+    rc, o = C.sh([exe], timeout=120)
+    want = open(os.path.join(C.LEAN, "Vore", "UnicodeTables.lean")).read()
+    same = rc == 0 and o == want
+    ctx.log.append({"step": "unitables vs committed Vore/UnicodeTables.lean", "rc": rc, "same": same})
+    return same, ("" if same else "regenerated Unicode tables differ from lean/Vore/UnicodeTables.lean")
